@@ -80,7 +80,7 @@ def compute_modes(fn):
                 d(args[0], m if m == 'W' else ('W' if n.cat == 'x' and q != 'std::as_const' and False else m)); return
             obj = n.n('object')
             off = 0
-            if n.ck == 'op' and n.mclass:
+            if n.ck == 'op' and 'mclass' in n.d:
                 off = 1
                 if args:
                     if inroot or n.mconst: d(args[0], 'R')
@@ -197,7 +197,7 @@ class Engine:
             base = q.split('::')[-1]
             args = n.ns('args')
             if q in TRANSPARENT_STD and args: return self.path_of(args[0], fr)
-            if n.ck == 'op' and n.mclass and args and not n.callee_in_root and n.op in ('*', '->', '[]'):
+            if n.ck == 'op' and 'mclass' in n.d and args and not n.callee_in_root and n.op in ('*', '->', '[]'):
                 return self.path_of(args[0], fr) + ('*',)
             if n.n('object') is not None and not n.callee_in_root and base in ELEMENT_OF:
                 return self.path_of(n.n('object'), fr) + ('*',)
@@ -422,7 +422,7 @@ class Engine:
             targets = self.facts.resolve(n)
             self.events.append(('call', n, frozenset(L), root, chain, None))
             for t in targets:
-                if n.ck == 'op' and n.mclass:
+                if n.ck == 'op' and 'mclass' in n.d:
                     this_path = self.path_of(args[0], fr) if args else ('?',)
                     call_args = args[1:]
                 elif obj is not None:
